@@ -52,6 +52,8 @@ Definition run (kind : Z) (inp : list Z) : list Z :=
   | 1701 => run_ram inp
   | 1702 => run_connlimit inp
   | 1703 => run_ramloop inp
+  | 1704 => run_webseed_cap inp
+  | 1804 => run_bandial inp
   | 1901 => run_priv_flag inp
   | 2001 => run_owner inp
   | 2002 => run_api_stress inp
@@ -109,9 +111,11 @@ Definition mon (kind : Z) (inp obs : list Z) : bool :=
   | 1701 => mon_ram inp obs
   | 1702 => list_eqb_Z (run_connlimit inp) obs
   | 1703 => list_eqb_Z (run_ramloop inp) obs
+  | 1704 => list_eqb_Z (run_webseed_cap inp) obs
   | 1801 => mon_blocklist inp obs
   | 1802 => mon_stree inp obs
   | 1803 => mon_addrlist inp obs
+  | 1804 => list_eqb_Z (run_bandial inp) obs
   | 1901 => list_eqb_Z (run_priv_flag inp) obs
   | 2001 => mon_owner inp
   | 2002 => list_eqb_Z (run_api_stress inp) obs
